@@ -363,7 +363,7 @@ type wrapped struct {
 // tamper: bit flips, truncations, field swaps, foreign keys.
 func tamper(t *testing.T, env *report.Env, rep *report.Report, base string) {
 	sec := rep.Add(&report.Section{Name: "tamper-evidence", Engine: "fsx", Exhaustive: true, Extra: map[string]int64{},
-		Rule: "for saved database files of several shapes: every single-bit flip, every truncation length, every swap of the Version/DEK/DB fields with a second valid database (same and different key), and opening with a foreign key; each altered file is opened alone in a fresh directory and again in place in the directory where the code built the database (next to whatever else the code left there); db.Open must fail or yield exactly the original contents; non-trivial = altered files that still parse as JSON (so the decision is made by the cryptographic layer)"})
+		Rule: "for saved database files of several shapes: every single-bit flip, every truncation length, every swap of the Version/DEK/DB fields with a second valid database (same and different key), members named like parts of the decrypted contents added to the outer document, and opening with a foreign key; each altered file is opened alone in a fresh directory and again in place in the directory where the code built the database (next to whatever else the code left there); db.Open must fail or yield exactly the original contents; non-trivial = altered files that still parse as JSON (so the decision is made by the cryptographic layer)"})
 	kekA, kekB := hx.NewKEK(), hx.NewKEK()
 	mk := func(dir string, kek tink.AEAD, hist []Op) (string, string) {
 		os.MkdirAll(dir, 0o700)
@@ -480,6 +480,14 @@ func tamper(t *testing.T, env *report.Env, rep *report.Report, base string) {
 				sec.Extra["field_swaps"]++
 			}
 		}
+		// members added to the (unauthenticated) outer document, named like parts of the decrypted contents
+		for _, extra := range []string{`"Secrets":{"planted":{"Versions":{"1":"eA=="},"ActiveVersion":1,"LatestVersion":1}}`, `"secrets":{"planted":{"Versions":{"1":"eA=="},"ActiveVersion":1,"LatestVersion":1}}`, `"Secrets":null`, `"persist":{"Secrets":{"planted":{"Versions":{"1":"eA=="},"ActiveVersion":1,"LatestVersion":1}}}`} {
+			if j := bytes.LastIndexByte(data, '}'); j > 0 {
+				mut := append(append(append([]byte{}, data[:j]...), []byte(","+extra)...), data[j:]...)
+				try("added-member", i, extra[:12], mut, kekA, orig)
+				sec.Extra["added_members"]++
+			}
+		}
 		if i == len(hists)-1 {
 			sec.Samples = append(sec.Samples, map[string]any{"file_bytes": len(data), "original": report.Clip(orig, 200)})
 		}
@@ -534,8 +542,9 @@ func restored(t *testing.T, rep *report.Report, base string, sc *scanner) {
 // reopened: the key-encryption key is consulted while an existing database is opened and never afterwards.
 func reopened(t *testing.T, rep *report.Report, base string) {
 	sec := rep.Add(&report.Section{Name: "kek-use-after-reopen", Engine: "enum", Exhaustive: true, Extra: map[string]int64{},
-		Rule: "databases of three shapes are closed and reopened with a counting key-encryption key; then every kind of operation (reads and each mutating operation, several in a row): the key must not be used after Open returned; non-trivial = mutating operations"})
+		Rule: "databases of three shapes are closed and reopened with a counting key-encryption key; then every kind of operation (reads and each mutating operation, several in a row): the key must not be used after Open returned, and after each operation every file in the state directory is scanned for the marker names and values in all trivial encodings; non-trivial = mutating operations"})
 	inner := hx.NewKEK()
+	sc := newScanner()
 	hists := [][]Op{nil, {{Kind: "put", Name: 0, Val: 0}}, {{Kind: "put", Name: 0, Val: 0}, {Kind: "put", Name: 0, Val: 1}, {Kind: "put", Name: 1, Val: 2}}}
 	ops := []Op{{Kind: "get", Name: 0}, {Kind: "list"}, {Kind: "put", Name: 0, Val: 2}, {Kind: "put", Name: 2, Val: 1}, {Kind: "activate", Name: 0, Ver: 2}, {Kind: "delver", Name: 0, Ver: 1}, {Kind: "delete", Name: 1}, {Kind: "put", Name: 1, Val: 0}}
 	for hi, h := range hists {
@@ -560,6 +569,16 @@ func reopened(t *testing.T, rep *report.Report, base string) {
 			sec.Evaluations++
 			if o.Kind == "put" || o.Kind == "activate" || o.Kind == "delver" || o.Kind == "delete" {
 				sec.Nontrivial++
+			}
+			// what a reopened database writes is scanned like what a fresh one writes
+			if ents, err := os.ReadDir(dir); err == nil {
+				for _, e := range ents {
+					data, _ := os.ReadFile(filepath.Join(dir, e.Name()))
+					if hit := sc.scan(data, true); hit != "" {
+						rep.Violate(sec.Name, fmt.Sprintf("at-rest-after-reopen: database %d op %s", hi, o.Kind), fmt.Sprintf("database %d reopened from its file, after %s: file %s contains %s in the clear", hi, o.Kind, e.Name(), hit), nil)
+					}
+					sec.Extra["files_scanned"]++
+				}
 			}
 			if n := kek.n.Load(); n != after {
 				rep.Violate(sec.Name, fmt.Sprintf("kek-after-reopen: database %d op %s", hi, o.Kind), fmt.Sprintf("database %d reopened from its file: %s used the key-encryption key %d time(s) after Open had returned", hi, o.Kind, n-after), nil)
